@@ -30,11 +30,11 @@ UNIVERSE = {
                       ("precision", (1,)), ("precision", (2,)), ("precision", (0,))]},
     "str": {"values": [None, "ab", ""],
             "ops": [("len", (2,)), ("len", (0,)), ("len", (1, ...)), ("len", (3, ...)), ("len", (..., 2)), ("len", (..., 1)),
-                    ("len", (1, 3)), ("alphabet", ("ab",)), ("alphabet", ("a",)), ("contains", ("a",)), ("contains", ("z",)),
+                    ("len", (1, 3)), ("len", (0, ...)), ("len", (..., 0)), ("len", (0, 0)), ("alphabet", ("ab",)), ("alphabet", ("a",)), ("contains", ("a",)), ("contains", ("z",)),
                     ("regex", ("a",)), ("regex", ("^z",))]},
     "list": {"values": [None, [schema.int, schema.str], [schema.int, ...], schema.int],
              "ops": [("len", (2,)), ("len", (1,)), ("len", (1, ...)), ("len", (3, ...)), ("len", (..., 2)), ("len", (..., 1)),
-                     ("len", (0, 5))]},
+                     ("len", (0, 5)), ("len", (0, ...)), ("len", (0,)), ("len", (..., 0)), ("len", (0, 0))]},
 }
 
 
